@@ -48,6 +48,12 @@ func (lockRes) Note(w *simrt.World, r *simrt.Req) {
 	})
 }
 
+func yieldAfterUnlock(w *simrt.World) {
+	if w.Cfg.UnlockYield {
+		w.Park(&simrt.Req{Kind: simrt.KYield, Res: theLockRes})
+	}
+}
+
 func yieldBeforeLock(w *simrt.World) {
 	if w.Cfg.LockYield {
 		w.Park(&simrt.Req{Kind: simrt.KYield, Res: theLockRes})
@@ -77,6 +83,7 @@ func (m *Mutex) Unlock() {
 	m.mu.Unlock()
 	if w := simrt.Cur(); w != nil {
 		w.Notify(&simrt.Req{Kind: simrt.NUnlock, Res: theLockRes, Ptr: unsafe.Pointer(m)})
+		yieldAfterUnlock(w)
 	}
 }
 
@@ -116,6 +123,7 @@ func (m *RWMutex) Unlock() {
 	m.mu.Unlock()
 	if w := simrt.Cur(); w != nil {
 		w.Notify(&simrt.Req{Kind: simrt.NUnlock, Res: theLockRes, Ptr: unsafe.Pointer(m)})
+		yieldAfterUnlock(w)
 	}
 }
 
@@ -123,6 +131,7 @@ func (m *RWMutex) RUnlock() {
 	m.mu.RUnlock()
 	if w := simrt.Cur(); w != nil {
 		w.Notify(&simrt.Req{Kind: simrt.NUnlock, Res: theLockRes, Ptr: unsafe.Pointer(m)})
+		yieldAfterUnlock(w)
 	}
 }
 
